@@ -57,7 +57,8 @@ TABLE = {
                             'closure and defaults to instantiate (event mode); assumed (T): types.FunctionType, immutability of tuples / '
                             'function attributes across the factory call; assumed with a bounded stand-in: the generated factory source '
                             '(_wrap_into_factory) and end-to-end signature, defaults, globals, closure identity and call bindings'),
-    'C10': dict(level='other', bounded=[('c10_cache.py', 'random request histories x option sets x 1..32 threads against fresh conversions')],
+    'C10': dict(level='other', bounded=[('c10_cache.py', 'random request histories x option sets x 1..32 threads against fresh conversions'),
+                                        ('rt_cache.py', 'run-time evaluation of the cache contracts over create / store / drop / collect histories')],
                 explanation='proved: the cache data structure (_TransformedFnCache.has/__getitem__, CodeObjectCache/UnboundInstanceCache '
                             '_get_key), the options value type used as sub-key (C20), and (event mode) the double-checked-locking protocol of '
                             'PyToPy.transform_function: lock-free lookup, second lookup under the lock, transform + create strictly before '
